@@ -170,6 +170,12 @@ func cliInTheLoop(c *cliEnv, seed int64, budget time.Duration, pairs map[string]
 	}
 	for run := 0; time.Since(start) < budget; run++ {
 		s := Generate(SeedFor(seed, 77, run), "cli")
+		// the command line names the signer by key (--from): it has no way to spell an address in upper case
+		for bi := range s.Blocks {
+			for ti := range s.Blocks[bi].Txs {
+				s.Blocks[bi].Txs[ti].Msg.Upper = false
+			}
+		}
 		// ---- every expressible tx is produced by the binary
 		e0 := &execState{actors: MakeActors(s.Cfg.Actors)}
 		for bi := range s.Blocks {
